@@ -87,7 +87,16 @@ public:
     void extend_basis(const Matrix& new_vect)
     {
         // Remove from the new vectors what is already in the search space (twice is enough)
+        // The new vectors are normalized first, so that "small" below means small compared
+        // with the vector before the projection: a correction that lies in the current search
+        // space leaves nothing but rounding noise, whatever its size
         Matrix W = new_vect;
+        for (Index j = 0; j < W.cols(); j++)
+        {
+            const Scalar wnorm = W.col(j).norm();
+            if (wnorm > Scalar(0))
+                W.col(j) /= wnorm;
+        }
         for (int pass = 0; pass < 2; pass++)
         {
             W -= m_basis_vectors * (m_basis_vectors.transpose() * W);
@@ -96,9 +105,13 @@ public:
         // space, or that are linearly dependent on each other. A plain QR factorization would
         // fill in arbitrary vectors for them, which are not orthogonal to the current basis.
         // Keep an orthonormal basis of the directions that are really new
+        // (the pivots of the column-pivoted QR factorization are compared with the unit norm of the
+        // vectors before the projection, not with the largest pivot, which can be noise itself)
         Eigen::ColPivHouseholderQR<Matrix> qr(W);
-        qr.setThreshold(std::sqrt(Eigen::NumTraits<Scalar>::epsilon()));
-        const Index rank = qr.rank();
+        const Scalar new_dir_thresh = std::sqrt(Eigen::NumTraits<Scalar>::epsilon());
+        Index rank = 0;
+        while (rank < qr.nonzeroPivots() && std::abs(qr.matrixR()(rank, rank)) > new_dir_thresh)
+            rank++;
         if (rank < 1)
             return;
         Matrix Q = qr.householderQ() * Matrix::Identity(W.rows(), rank);
